@@ -32,3 +32,48 @@ Example C06_example :
   map dd_end (s_dts (fold_left serve rs sdb_init)) = [3]%N.
 Proof. vm_compute. split; reflexivity. Qed.
 Print Assumptions C06_example.
+
+(* ---------- the per-client clause ---------- *)
+From Orda.Proofs Require Import ClientOrder.
+
+(* After ANY sequence of requests in which every pushed operation carries its pusher's identifier (what clients do) —
+   arbitrary batches, empty pushes, re-pushes of acknowledged operations, pushes with gaps (refused), any option bits
+   and checkpoints — for every datatype d and every client u: the operations authored by u in d's stored log carry
+   the client sequence numbers 1, 2, ..., k in log order, each exactly once, where k = [ack d u] is the sequence number
+   the server has recorded as acknowledged to u (0 if u never pushed).  So every operation a client pushed and got
+   acknowledged is stored exactly once, in the order the client issued them, and no acknowledged operation is missing. *)
+Theorem C06_client_order : forall rs : list request, Forall honest rs ->
+  forall d, In d (s_dts (fold_left serve rs sdb_init)) -> forall u,
+    seqs_of (s_ops (fold_left serve rs sdb_init)) (dd_duid d) u = nseq 1 (N.to_nat (ack d u)).
+Proof. exact client_order. Qed.
+Print Assumptions C06_client_order.
+
+(* the accepted part of one push: exactly the operations that carry the next expected sequence numbers *)
+Theorem C06_push_accepts_next : forall D col u ops c acc c' out,
+  push_ops D col c ops acc = Some (c', out) ->
+  Forall (fun o => o_cuid (op_id o) = u) ops ->
+  exists new, out = acc ++ new /\ map oseq new = nseq (cseq c + 1) (length new) /\
+              cseq c' = cseq c + N.of_nat (length new) /\ Forall (fun o => authored u o = true) new.
+Proof. exact push_authored. Qed.
+Print Assumptions C06_push_accepts_next.
+
+(* non-vacuity: two clients interleave pushes, one re-pushes acknowledged operations *)
+Example C06_client_order_example :
+  let c := [99]%N in let u := [117]%N in let v := [118]%N in let k := [107]%N in let col := [65]%N in
+  let o1 := OSnap (mkOpid 0 1 u 1) in let o2 := OInc (mkOpid 0 2 u 2) 5 in let o3 := OInc (mkOpid 0 3 u 3) 7 in
+  let p1 := OInc (mkOpid 0 3 v 1) 1 in let p2 := OInc (mkOpid 0 4 v 2) 2 in
+  let rs := [RCollection col; RClient col u; RClient col v;
+             RPushPull col u [mkPpp k c bit_create (mkCp 0 2) 0 [o1; o2] None];
+             RPushPull col v [mkPpp k c bit_subscribe (mkCp 0 0) 0 [] None];
+             RPushPull col v [mkPpp k c 0 (mkCp 2 1) 0 [p1] None];
+             RPushPull col u [mkPpp k c 0 (mkCp 0 3) 0 [o1; o2; o3] None];
+             RPushPull col v [mkPpp k c 0 (mkCp 3 2) 0 [p1; p2] None]] in
+  let db := fold_left serve rs sdb_init in
+  Forall honest rs /\
+  map od_sseq (s_ops db) = [1; 2; 3; 4; 5]%N /\
+  seqs_of (s_ops db) c u = [1; 2; 3]%N /\ seqs_of (s_ops db) c v = [1; 2]%N /\
+  map (fun d => (ack d u, ack d v)) (s_dts db) = [(3, 2)]%N.
+Proof.
+  cbv zeta. split; [repeat constructor|]. vm_compute. repeat split; reflexivity.
+Qed.
+Print Assumptions C06_client_order_example.
